@@ -6,7 +6,8 @@ prop=$(python3 -c "import json;print(json.load(open('$ROOT/seeded/$id/meta.json'
 checks=${@:-$prop}
 wt=/tmp/sw_$$
 git -C /repo worktree add -q --detach $wt HEAD || exit 9
-if ! git -C $wt apply $ROOT/seeded/$id/patch.diff 2>/tmp/apply_err_$$; then echo "$id: PATCH-DOES-NOT-APPLY $(head -1 /tmp/apply_err_$$)"; git -C /repo worktree remove --force $wt; exit 3; fi
+if ! git -C $wt apply $ROOT/seeded/$id/patch.diff 2>/tmp/apply_err_$$; then echo "$id: PATCH-DOES-NOT-APPLY $(head -1 /tmp/apply_err_$$)"; rm -f /tmp/apply_err_$$; git -C /repo worktree remove --force $wt; exit 3; fi
+rm -f /tmp/apply_err_$$
 for c in $checks; do
   out=$(cd $ROOT && VERIF_REPO=$wt ./check $c --tier quick 2>&1 | grep -v "^KNOWN" | tail -2 | tr '\n' ' ' | cut -c1-260)
   echo "$id vs $c: $out"
